@@ -160,6 +160,7 @@ func (v absval) sorted() []atom {
 type callInfo struct {
 	callee      string
 	kinds, objs uint8
+	must        bool // executed on every path that reaches this point
 }
 
 type state struct {
@@ -208,15 +209,7 @@ func join(a, b *state) *state {
 			o.vars[k] = v.clone()
 		}
 	}
-	for k, v := range b.calls {
-		if ov, ok := o.calls[k]; ok {
-			ov.kinds |= v.kinds
-			ov.objs |= v.objs
-			o.calls[k] = ov
-		} else {
-			o.calls[k] = v
-		}
-	}
+	o.calls = joinCalls(a.calls, b.calls)
 	for k, v := range b.errs {
 		if ov, ok := o.errs[k]; ok && ov != v {
 			o.errs[k] = "U"
@@ -227,6 +220,28 @@ func join(a, b *state) *state {
 	for k := range o.errs {
 		if _, ok := b.errs[k]; !ok {
 			_ = k // only known on one side: keep (the variable is out of scope on the other)
+		}
+	}
+	return o
+}
+
+// a call known on one side only was not executed on the other side's paths
+func joinCalls(a, b map[int]callInfo) map[int]callInfo {
+	o := map[int]callInfo{}
+	for k, v := range a {
+		if w, ok := b[k]; ok {
+			v.kinds |= w.kinds
+			v.objs |= w.objs
+			v.must = v.must && w.must
+		} else {
+			v.must = false
+		}
+		o[k] = v
+	}
+	for k, w := range b {
+		if _, ok := a[k]; !ok {
+			w.must = false
+			o[k] = w
 		}
 	}
 	return o
@@ -542,16 +557,25 @@ func (f *fnAn) evalExpr(e ast.Expr, s *state) absval {
 // snapshot of the calls an abstract value refers to, plus every constrained call of the state
 func snapshotCalls(s *state, vals ...absval) map[int]callInfo {
 	out := map[int]callInfo{}
+	for id, ci := range s.calls {
+		out[id] = ci
+	}
+	return out
+}
+
+// what is worth printing: calls an atom refers to, and calls that are constrained
+func relevantCalls(cs map[int]callInfo, vals ...absval) map[int]callInfo {
+	out := map[int]callInfo{}
 	for _, v := range vals {
 		for at := range v {
 			if at.k == "callobj" || at.k == "callerr" {
-				if ci, ok := s.calls[at.id]; ok {
+				if ci, ok := cs[at.id]; ok {
 					out[at.id] = ci
 				}
 			}
 		}
 	}
-	for id, ci := range s.calls {
+	for id, ci := range cs {
 		if ci.kinds != kN|kNFE|kO || ci.objs != oNil|oNN {
 			out[id] = ci
 		}
@@ -727,7 +751,7 @@ func (f *fnAn) assign(lhs, rhs []ast.Expr, s *state) {
 			if name, kind := f.resolveCallee(r); kind != "" {
 				id := f.callID(r.Pos())
 				s.kill(id)
-				s.calls[id] = callInfo{callee: name, kinds: kN | kNFE | kO, objs: oNil | oNN}
+				s.calls[id] = callInfo{callee: name, kinds: kN | kNFE | kO, objs: oNil | oNN, must: true}
 				sg := sig{nres: len(lhs), errIdx: len(lhs) - 1, objIdx: -1}
 				if kind == "tracked" {
 					sg = a.sigs[name]
@@ -935,21 +959,7 @@ func (f *fnAn) record(r *ast.ReturnStmt, s *state) {
 		for at := range old.err {
 			rec.err[at] = true
 		}
-		for id, ci := range old.calls {
-			if n, ok := rec.calls[id]; ok {
-				n.kinds |= ci.kinds
-				n.objs |= ci.objs
-				rec.calls[id] = n
-			} else {
-				// constrained on an earlier visit only: on this visit it is unconstrained
-				rec.calls[id] = callInfo{callee: ci.callee, kinds: kN | kNFE | kO, objs: oNil | oNN}
-			}
-		}
-		for id, ci := range rec.calls {
-			if _, ok := old.calls[id]; !ok {
-				rec.calls[id] = callInfo{callee: ci.callee, kinds: kN | kNFE | kO, objs: oNil | oNN}
-			}
-		}
+		rec.calls = joinCalls(old.calls, rec.calls)
 	}
 	f.rets[r.Pos()] = rec
 }
@@ -1469,7 +1479,7 @@ func callsStr(cs map[int]callInfo) string {
 	var xs []string
 	for _, id := range ids {
 		c := cs[id]
-		xs = append(xs, fmt.Sprintf("mkCall %d %q %s %s", id, c.callee, kindsStr(c.kinds), objsStr(c.objs)))
+		xs = append(xs, fmt.Sprintf("mkCall %d %q %s %s %v", id, c.callee, kindsStr(c.kinds), objsStr(c.objs), c.must))
 	}
 	return "[" + strings.Join(xs, "; ") + "]"
 }
@@ -1894,7 +1904,7 @@ func main() {
 			if r.tail != "" {
 				tail = fmt.Sprintf("(Some %q)", r.tail)
 			} else {
-				obj, errs, calls = oatoms(r.obj), eatoms(r.err), callsStr(r.calls)
+				obj, errs, calls = oatoms(r.obj), eatoms(r.err), callsStr(relevantCalls(r.calls, r.obj, r.err))
 			}
 			lines = append(lines, fmt.Sprintf("  mkRet %q %d %q %s %s %s %s", n, i, posStr(r.pos), tail, obj, errs, calls))
 		}
@@ -1905,7 +1915,7 @@ func main() {
 	var al []string
 	seenAdd := map[string]bool{}
 	for _, ad := range a.adds {
-		l := fmt.Sprintf("  mkAdded %q %q %s %s", ad.fn, posStr(ad.pos), eatoms(ad.err), callsStr(ad.calls))
+		l := fmt.Sprintf("  mkAdded %q %q %s %s", ad.fn, posStr(ad.pos), eatoms(ad.err), callsStr(relevantCalls(ad.calls, ad.err)))
 		if !seenAdd[l] {
 			seenAdd[l] = true
 			al = append(al, l)
